@@ -376,8 +376,8 @@ Proof.
   destruct (closure_terminates defs (op_sel o)) as [names Hn]. rewrite Hn.
   destruct (closure_exact _ _ _ Hn) as [Hnd Hiff].
   destruct (lookup_all_total (get_frag defs) names) as [fs Hfs]; [intros n Hin; apply Hdef, Hiff, Hin|].
-  rewrite Hfs. exists names, fs. repeat split; try assumption; try apply Hiff.
-  now apply lookup_all_Forall2.
+  rewrite Hfs. exists names, fs.
+  split; [reflexivity|]. split; [now apply lookup_all_Forall2|]. split; assumption.
 Qed.
 
 Theorem operation_runtime_panics defs o n :
@@ -408,10 +408,8 @@ Proof.
     destruct (str_eqb_spec n (iname (fr_name f))); cbn [negb]; split; intros [H1 H2]; split; congruence. }
   destruct (lookup_all_total (get_frag defs) (filter keep names)) as [fs Hfs].
   { intros n Hin. apply Hk in Hin. destruct Hin. now apply Hdef. }
-  rewrite Hfs. exists (filter keep names), fs. repeat split; try apply Hk.
-  - now apply lookup_all_Forall2.
-  - now apply NoDup_filter.
-  - apply Hk. - apply Hk.
+  rewrite Hfs. exists (filter keep names), fs.
+  split; [reflexivity|]. split; [now apply lookup_all_Forall2|]. split; [now apply NoDup_filter|exact Hk].
 Qed.
 
 Theorem fragment_runtime_panics defs f n :
